@@ -37,7 +37,7 @@ STUBS = ["symbolic tokens: str subclasses with solver-decided equality and forke
          "assignments to Antecedent.text / Consequent.text are re-split into the same token objects",
          "builtin float shadowed in fuzzylite.rule: number token -> 0.5, any other token -> ValueError (as float() does)"]
 OB_BUDGET_S = {"quick": 300, "thorough": 2400}
-TOTAL_BUDGET_S = {"quick": 420, "thorough": 3000}
+TOTAL_BUDGET_S = {"quick": 420, "thorough": 5400}
 BOUNDS = {"quick": {"rule tokens": "every sequence of 1..7 tokens; `if` + every sequence of 1..6 tokens (7 without parentheses/keywords) + `then oa is lo`; "
                                    "`if ia is lo then` + every sequence of 1..6 tokens; a loaded rule re-parsed with every sequence of 1..5 tokens; "
                                    "rule blocks [valid, every sequence of 1..5 tokens, valid]",
